@@ -12,6 +12,8 @@ import (
 	"google.golang.org/grpc/codes"
 	"google.golang.org/grpc/status"
 
+	proto "github.com/liftbridge-io/liftbridge/server/protocol"
+
 	"verif.local/simrt"
 	"verif.local/simrt/hx"
 )
@@ -32,8 +34,17 @@ func genC16(r *simrt.Rand, tier string, idx int) *hx.Program {
 			p.Ops = append(p.Ops, hx.Op{K: "sleep", S: fmt.Sprintf("p%d", pub), A: []int64{int64(1 + r.Intn(30))}})
 			continue
 		}
+		if r.Pct(5) {
+			// the stream is paused; the next publish through the API resumes it
+			p.Ops = append(p.Ops, hx.Op{K: "pause", S: fmt.Sprintf("p%d", pub)})
+			continue
+		}
 		kind := []int64{0, 1, 1, 1, 2, 3, 1, 4}[r.Intn(8)]
-		p.Ops = append(p.Ops, hx.Op{K: "pub", S: fmt.Sprintf("p%d", pub), A: []int64{kind, int64(1 + r.Intn(2)), int64(r.Uint64() >> 1)}})
+		pol := int64(1 + r.Intn(2))
+		if r.Pct(10) {
+			pol = 3 // ack policy NONE: refused on a stream with concurrency control (the publisher could not learn the outcome)
+		}
+		p.Ops = append(p.Ops, hx.Op{K: "pub", S: fmt.Sprintf("p%d", pub), A: []int64{kind, pol, int64(r.Uint64() >> 1)}})
 	}
 	return p
 }
@@ -52,13 +63,14 @@ func execC16(t *testing.T, prog *hx.Program, dec *simrt.Decider, verbose bool) *
 		ok       bool
 		rejected bool // INCORRECT_OFFSET
 		unknown  bool
+		noAck    bool // the call returned success without an acknowledgement (ack policy NONE)
 		offset   int64
 		call     int64
 		ret      int64
 		errText  string
 	}
 	var attempts []*attempt
-	races := 0
+	races, pauses := 0, 0
 	oc := runH3(t, prog, dec, verbose, 1, func(h *h3) {
 		h.cfgHook = func(n *simNode, c *Config) {
 			c.BatchMaxMessages = int(prog.Param("batchmax", 1024))
@@ -103,6 +115,15 @@ func execC16(t *testing.T, prog *hx.Program, dec *simrt.Decider, verbose bool) *
 						simrt.Sleep(time.Duration(op.Arg(0, 1)) * time.Millisecond)
 						continue
 					}
+					if op.K == "pause" {
+						h.rpc(n, "pause", func(api *apiServer) {
+							ctx, cancel := ctxT(5 * time.Second)
+							defer cancel()
+							api.PauseStream(ctx, &client.PauseStreamRequest{Name: "occ"})
+						})
+						pauses++
+						continue
+					}
 					a := &attempt{client: ci}
 					switch op.Arg(0, 0) {
 					case 0:
@@ -131,6 +152,9 @@ func execC16(t *testing.T, prog *hx.Program, dec *simrt.Decider, verbose bool) *
 					if op.Arg(1, 1) == 2 {
 						policy = client.AckPolicy_ALL
 					}
+					if op.Arg(1, 1) == 3 {
+						policy = client.AckPolicy_NONE
+					}
 					var resp *client.PublishResponse
 					var err error
 					alive := h.rpc(n, "publish", func(api *apiServer) {
@@ -153,6 +177,10 @@ func execC16(t *testing.T, prog *hx.Program, dec *simrt.Decider, verbose bool) *
 						if a.offset+1 > known {
 							known = a.offset + 1
 						}
+					case err == nil && policy == client.AckPolicy_NONE:
+						// success without an acknowledgement: the publisher has been told nothing went wrong
+						a.noAck = true
+						a.unknown = true
 					case err != nil && status.Code(err) == codes.Unknown && status.Convert(err).Message() == "incorrect expected offset":
 						a.rejected = true
 						a.errText = err.Error()
@@ -171,6 +199,15 @@ func execC16(t *testing.T, prog *hx.Program, dec *simrt.Decider, verbose bool) *
 			return
 		}
 		simrt.Sleep(100 * time.Millisecond)
+		if p := n.srv.metadata.GetPartition("occ", 0); p != nil && p.IsPaused() {
+			// (the last operation paused the stream: resume it to read the log)
+			h.rpc(n, "resume", func(api *apiServer) {
+				ctx, cancel := ctxT(5 * time.Second)
+				defer cancel()
+				n.srv.metadata.ResumeStream(ctx, &proto.ResumeStreamOp{Stream: "occ", Partitions: []int32{0}})
+			})
+			simrt.Sleep(100 * time.Millisecond)
+		}
 		msgs, err := h.readLog(n, "occ", 0)
 		if err != nil {
 			h.oc.Trouble = "read log: " + err.Error()
@@ -204,6 +241,21 @@ func execC16(t *testing.T, prog *hx.Program, dec *simrt.Decider, verbose bool) *
 					if bytes.Equal(m.val, a.val) {
 						h.fail("C16/rejected", "C16/rejected/stored", "publish of %q (expected offset %d) was rejected with an incorrect-offset error but is stored at offset %d", a.val, a.expected, m.off)
 					}
+				}
+			case a.noAck:
+				anyUnknown = true
+				// "...otherwise the publisher gets an incorrect-offset error and the log is unchanged": a publish
+				// that was answered with success is stored, and where it expected to be
+				storedAt := int64(-1)
+				for _, m := range msgs {
+					if bytes.Equal(m.val, a.val) {
+						storedAt = m.off
+					}
+				}
+				if storedAt == -1 {
+					h.fail("C16/offset", "C16/offset/success-but-not-stored", "publish of %q (expected offset %d, ack policy NONE) returned without an error, but the message is not in the log", a.val, a.expected)
+				} else if a.expected != -1 && storedAt != a.expected {
+					h.fail("C16/offset", "C16/offset/landed-elsewhere", "publish of %q expected offset %d and is stored at offset %d", a.val, a.expected, storedAt)
 				}
 			default:
 				anyUnknown = true
@@ -268,6 +320,7 @@ func execC16(t *testing.T, prog *hx.Program, dec *simrt.Decider, verbose bool) *
 	oc.Counters["probe.accepted"] = succ
 	oc.Counters["probe.rejected_incorrect_offset"] = rej
 	oc.Counters["probe.same_expected_offset_in_flight_together"] = races
+	oc.Counters["fault.stream_paused"] = pauses
 	return oc
 }
 
